@@ -132,7 +132,17 @@ def generate(seed, prop):
                       "nested": {"a": [1, {"b": None}], "c": 1e-300}, "flag": True, "none": None, "unicode": "Å/µ"},
              "records": {"k": rng.randrange(1 << 30), "ns": rng.choice([400, 500, 640]),
                          "dt": rng.choice([0.01, 0.005, 0.02]),
-                         "spike_p": rng.choice([0.0, 0.2, 0.5])}}
+                         "spike_p": rng.choice([0.0, 0.2, 0.5]),
+                         # sensor orientation of the windows (0 after the default preprocessing, anything otherwise)
+                         "deg": rng.choice([0.0, 0.0, "mixed", 30.0, -12.5, 360.0, 725.25])}}
+    if prop in ("C05", "C11") and rng.random() < 0.2:
+        # a few exactly-zero samples (log -> -inf): the lognormal curve statistics of THOSE columns are outside the
+        # estimator's domain and are not judged; every other column is
+        zs = []
+        for _ in range(rng.randint(1, 3)):
+            a_ = rng.randrange(len(curves))
+            zs.append([a_, rng.randrange(len(curves[a_])), rng.randrange(grid["n"])])
+        world["zeros"] = zs
     counts = [len(c) for c in curves]
     same_counts = len(set(counts)) == 1
 
@@ -183,6 +193,7 @@ def generate(seed, prop):
     ops = []
     n_plots = 0
     last_range = None
+    last_alias = False
     for _ in range(n_ops):
         name = rng.choices(names, weights)[0]
         if name == "plot":
@@ -195,6 +206,11 @@ def generate(seed, prop):
             # same-range short-circuit and 'only the kwargs changed' paths are exercised
             if last_range is not None and rng.random() < 0.25:
                 o["range"] = list(last_range)
+            if name == "update_peaks":
+                # biased schedule: a sweep over the options with one dict edited in place and an unchanged range
+                if o.get("kw_alias") and last_alias and last_range is not None and rng.random() < 0.6:
+                    o["range"] = list(last_range)
+                last_alias = bool(o.get("kw_alias"))
             last_range = list(o["range"])
         ops.append(o)
         if name == "update_member" and rng.random() < 0.5:
@@ -215,7 +231,9 @@ def generate(seed, prop):
 def draw_op(rng, name, f, kind, curves, azimuths, fault_rate=0.0):
     if name == "update_peaks":
         return {"op": name, "range": draw_range(rng, f), "rnum": rng.choice(["float", "float", "np", "int"]),
-                "rtype": rng.choice(["tuple", "tuple", "list"]), "kwargs": draw_kwargs(rng)}
+                "rtype": rng.choice(["tuple", "tuple", "list"]), "kwargs": draw_kwargs(rng),
+                # the caller keeps ONE options dict, edits it in place and hands it in again (a parameter sweep)
+                "kw_alias": rng.random() < 0.3}
     if name == "fdwra":
         return {"op": name, "n": rng.choice([0.5, 1.0, 1.5, 2.0, 2, 2.5, 3.0, 3, 1]),
                 "max_iterations": rng.choice([1, 1, 2, 3, 5, 50, 50]),
@@ -297,6 +315,9 @@ def build_world(world):
     st.f = CV.gen_grid(world["grid"])
     scale = float(world.get("amp_scale", 1.0))          # very small / very large but legal amplitudes
     st.amps = [scale * np.array([CV.gen_curve(st.f, s) for s in cs]) for cs in world["curves"]]
+    for a_, j_, i_ in world.get("zeros", []):           # an amplitude of exactly zero is legal (>= 0 is what is checked)
+        if a_ < len(st.amps) and j_ < len(st.amps[a_]) and i_ < len(st.f):
+            st.amps[a_][j_, i_] = 0.0
     st.azimuths = list(world["azimuths"])
     st.meta0 = dict(world.get("meta") or {})
     st.objs = {}
@@ -341,7 +362,8 @@ def get_records(st):
         g = np_rng(r["k"])
         n = len(st.amps[0])
         recs = []
-        for _ in range(n):
+        deg = r.get("deg", 0.0)
+        for j in range(n):
             comps = []
             spike = g.random() < r["spike_p"]
             for _c in range(3):
@@ -350,7 +372,8 @@ def get_records(st):
                     i = int(g.integers(0, r["ns"] - 20))
                     x[i:i + 20] += g.normal(0, 15, 20)
                 comps.append(H.TimeSeries(x, r["dt"]))
-            recs.append(H.SeismicRecording3C(*comps))
+            d = float(g.choice([0.0, 15.0, 200.5])) if deg == "mixed" else float(deg)
+            recs.append(H.SeismicRecording3C(*comps, degrees_from_north=d, meta={"window": j, "tags": ["sim", {"deg": d}]}))
         st.records = recs
     return st.records
 
@@ -496,11 +519,19 @@ def apply_op(ctx, st, op, prop):
         st.member = {}
     if name == "update_peaks":
         r = range_arg(op)
+        alias = None
+        if op.get("kw_alias"):
+            if not hasattr(st, "caller_kwargs"):
+                st.caller_kwargs = {}
+            alias = st.caller_kwargs
+            alias.clear()
+            alias.update(copy.deepcopy(op["kwargs"] or {}))
+            ctx.probe("caller_reuses_kwargs_dict")
         for key, obj in st.objs.items():
             targets = obj if key == "curves" else [obj]
             for t in targets:
                 t.update_peaks_bounded(search_range_in_hz=r,
-                                       find_peaks_kwargs=copy.deepcopy(op["kwargs"]))
+                                       find_peaks_kwargs=alias if alias is not None else copy.deepcopy(op["kwargs"]))
         st.range_changed = tuple(op["range"]) != tuple(st.cur_range)
         st.cur_range, st.cur_kwargs = tuple(op["range"]), copy.deepcopy(op["kwargs"])
         ctx.state_changes += 1
@@ -874,6 +905,12 @@ def stat_same(name, g, e, F, A, rows):
     standard deviation or covariance is proportional to that magnitude, not to the result)."""
     if isinstance(g, tuple) or isinstance(e, tuple):
         return isinstance(g, tuple) and isinstance(e, tuple) and g == e
+    if "curve" in name and np.size(rows) and ("lognormal" in name or "log-normal" in name):
+        zero_cols = (np.asarray(rows) <= 0).any(axis=0)
+        if zero_cols.any() and np.shape(g) == zero_cols.shape == np.shape(e):
+            g, e = np.array(g, float), np.array(e, float)   # log(0): outside the lognormal estimator's domain
+            g[zero_cols] = 1.0
+            e[zero_cols] = 1.0
     with np.errstate(all="ignore"):
         mf = float(np.nanmax(np.abs(F))) if len(F) else 1.0
         ma = float(np.nanmax(np.abs(A))) if len(A) else 1.0
